@@ -2,7 +2,7 @@
 (* The reconstructor over every table of two tokens (the second one is the end-of-file token) with small         *)
 (* formatting counters, under the contracts of the earlier stages:                                               *)
 (*   Space            : sp <= 1                                                                                  *)
-(*   Wrap / zeroing   : nl <= 2 for tokens of solved lines, and sp = 0 where nl > 0                               *)
+(*   Wrap / zeroing   : nl <= 2 for tokens of solved lines, sp = 0 where nl > 0, no indentation where nl = 0     *)
 (*   EofFmt           : the end-of-file token of a well-formed file has nl = 1, ind = cont = sp = 0                *)
 (* With CONTRACTS = FALSE every counter combination is generated: TLC then shows the states in which a predicate *)
 (* depends on what the earlier stages left (the "escape routes" of C08).                                          *)
@@ -23,16 +23,20 @@ WsChoices == {<<>>, <<SPACE>>, <<LF, SPACE, SPACE>>, <<LF, LF, LF>>}
 
 Tok(k, ws, ign, nl, ind, cont, sp) == [kind |-> k, text |-> Text(k), ws |-> ws, ign |-> ign, nl |-> nl, ind |-> ind, cont |-> cont, sp |-> sp]
 Contract(t) == ~t.ign => /\ t.sp <= 1 /\ t.nl <= 2 /\ (t.nl > 0 => t.sp = 0)
+                         /\ (t.nl = 0 => t.ind = 0 /\ t.cont = 0)          \* a token that continues its line carries no indentation
 EofContract(t) == ~t.ign => t.nl = 1 /\ t.ind = 0 /\ t.cont = 0 /\ t.sp = 0
 
+\* first token of the file; a middle token; the end-of-file token. For a token that is formatted the original blanks do
+\* not matter, for a verbatim one the counters do not.
+T1 == {Tok(k, <<>>, g, 0, 0, 0, 0) : k \in Kinds, g \in BOOLEAN}
+T2 == {Tok(k, w, TRUE, 0, 0, 0, 0) : k \in Kinds, w \in WsChoices}
+      \cup {Tok(k, <<>>, FALSE, n, i, c, s) : k \in Kinds, n \in 0..3, i \in 0..1, c \in 0..1, s \in 0..2}
+T3 == {Tok("eof", w, TRUE, 0, 0, 0, 0) : w \in {<<>>, <<LF, LF, LF>>, <<SPACE>>}}
+      \cup {Tok("eof", <<>>, FALSE, n, 0, 0, s) : n \in 0..2, s \in 0..1}
+
 Init == /\ cfg \in Settings
-        /\ \E k1 \in Kinds, k2 \in Kinds, w1 \in WsChoices, w2 \in WsChoices, w3 \in WsChoices, g1 \in BOOLEAN, g2 \in BOOLEAN, g3 \in BOOLEAN,
-              n1 \in 0..2, n2 \in 0..3, n3 \in 0..2, i2 \in 0..1, c2 \in 0..1, s2 \in 0..2, s3 \in 0..1 :
-              LET t1 == Tok(k1, <<>>, g1, 0, 0, 0, 0)                 \* first token of the file
-                  t2 == Tok(k2, w2, g2, n2, i2, c2, s2)
-                  t3 == Tok("eof", w3, g3, n3, 0, 0, s3)
-              IN /\ toks = <<t1, t2, t3>>
-                 /\ CONTRACTS => Contract(t1) /\ Contract(t2) /\ EofContract(t3)
+        /\ toks \in {<<t1, t2, t3>> : t1 \in T1, t2 \in T2, t3 \in T3}
+        /\ CONTRACTS => Contract(toks[1]) /\ Contract(toks[2]) /\ EofContract(toks[3])
         /\ out = <<>> /\ done = FALSE
 
 Emit == /\ ~done
